@@ -117,7 +117,7 @@ class RayRelDriver:
         for k, (a, b) in enumerate(zip(sols, got)):
             for nm in ('path_length', 'tof'):
                 x, y = float(getattr(a, nm)), float(getattr(b, nm))
-                if abs(x - y) > 1e-9 * max(abs(x), 1e-30):
+                if not (abs(x - y) <= 1e-9 * max(abs(x), 1e-30)):
                     raise Divergence('%s: %s of solution %d' % (where, nm, k), x, y)
             for nm in ('emitted_direction', 'received_direction'):
                 x, y = np.asarray(getattr(a, nm), dtype=float), np.asarray(getattr(b, nm), dtype=float)
@@ -129,7 +129,7 @@ class RayRelDriver:
         tol = self.tol
         em, rc = o['e'], o['r']
         for nm, v in (('emitted', em), ('received', rc)):
-            if abs(np.linalg.norm(v) - 1) > 1e-9:
+            if not (abs(np.linalg.norm(v) - 1) <= 1e-9):
                 raise Divergence(where + ': |%s direction|' % nm, 1.0, float(np.linalg.norm(v)))
         # n sin(theta) is the same at launch and at reception
         n0, n1 = float(ice.index(src[2])), float(ice.index(dst[2]))
@@ -141,7 +141,7 @@ class RayRelDriver:
         if rho > 0:
             u = h / rho
             for nm, v, s in (('emitted', em, s0), ('received', rc, s1)):
-                if abs(v[0] * u[1] - v[1] * u[0]) > 1e-9 or (s > 1e-9 and v[0] * u[0] + v[1] * u[1] < 0):
+                if not (abs(v[0] * u[1] - v[1] * u[0]) <= 1e-9) or (s > 1e-9 and v[0] * u[0] + v[1] * u[1] < 0):
                     raise Divergence(where + ': horizontal part of the %s direction' % nm, 'along %s' % list(u), list(v[:2]))
         # the second solution leaves upwards and arrives downwards (turns over or reflects).  The first one never turns over
         # *where a monotone ray exists*: between points of (nearly) equal depth no monotone ray exists in a medium whose
